@@ -139,6 +139,12 @@ structure NumIn where
   sci : Nat → Nat → Str
   /-- `FormatFloat(number,'G',10,64)` -/
   general : Str
+  /-- fraction formats: the continued-fraction terms `floor(1/n)` of `|frac(number)|` as binary64
+  computes them (`continuedFraction` in lib.go), each stored as `a - 1`: a term is at least 1 because
+  `0 < n < 1` (the non-finite numbers are kept out of the transcript) -/
+  cfPred : List Nat := []
+  /-- `fixedFloor pct d = Sprintf("%.{d}f", Round(Floor(|number*100^pct|)*10^d)/10^d)` (fraction formats) -/
+  fixedFloor : Nat → Nat → Str := fun _ _ => []
 
 /-! ## getNumberFmtConf / getNumberPartLen -/
 
@@ -279,12 +285,51 @@ def litStep (text : Str) (hz : Nat) (st : LitSt) (t : Tok) : LitSt :=
   else st
 
 def hasUnmodelled (items : List Tok) : Bool :=
-  items.any fun t => t.ty = "Fraction" || t.ty = "Denominator" || t.ty = "SwitchArgument"
+  items.any (fun t => t.ty = "Denominator" || t.ty = "SwitchArgument") ||
+    (items.any (fun t => t.ty = "Fraction") && items.any (fun t => t.ty = "Exponential"))
+
+/-! ## fraction formats (`# ?/?`): fractionHandler, newRat, continuedFraction -/
+
+/-- `1/(a₁ + 1/(a₂ + … 1/(a_k + 0)))` as big.Rat computes it (`res.Inv(y + next)`): numerator and
+denominator; the list holds `a - 1` -/
+def cfEval : List Nat → Nat × Nat
+  | [] => (0, 1)
+  | a :: rest =>
+    let pq := cfEval rest
+    (pq.2, (a + 1) * pq.2 + pq.1)
+
+/-- the `for i := 0; i < 5000; i++` loop of fractionHandler: `newRat(frac, i, 0)` uses the first
+`i - 1` terms; the last rational whose denominator fits the placeholder is kept, the first that does
+not fit ends the loop -/
+def fracLoop (terms : List Nat) (ph : Nat) : (i fuel : Nat) → Str → Str
+  | _, 0, rat => rat
+  | i, fuel + 1, rat =>
+    let pq := cfEval (terms.take (i - 1))
+    if (itoa pq.2).length ≤ ph then
+      fracLoop terms ph (i + 1) fuel (if pq.1 = 0 then [' ', ' ', ' '] else itoa pq.1 ++ '/' :: itoa pq.2)
+    else rat
+
+def fracIterations : Nat := natAt Facts.C10.fractionHandlerInts 1
+
+/-- fractionHandler for a token met after the `/` (denominator tokens are not modelled) -/
+def fractionHandler (terms : List Nat) (t : Tok) : Str :=
+  if t.ty = "DigitalPlaceHolder" then fracLoop terms t.val.length 0 fracIterations [] else []
 
 /-- printNumberLiteral (no fraction / switch argument in scope) -/
 def printNumberLiteral (items : List Tok) (usePositive : Bool) (text : Str) : Str :=
   let st0 : LitSt := { result := if usePositive then ['-'] else [] }
   (items.foldl (litStep text (hashZeroLen items)) st0).result
+
+/-- printNumberLiteral when the section holds a `/`: from the Fraction token on every token also
+appends fractionHandler's string -/
+def litStepF (terms : List Nat) (text : Str) (hz : Nat) (acc : LitSt × Bool) (t : Tok) : LitSt × Bool :=
+  let st := litStep text hz acc.1 t
+  let useFrac := acc.2 || t.ty = "Fraction"
+  if useFrac then ({ st with result := st.result ++ fractionHandler terms t }, true) else (st, false)
+
+def printNumberLiteralF (terms : List Nat) (items : List Tok) (usePositive : Bool) (text : Str) : Str :=
+  let st0 : LitSt := { result := if usePositive then ['-'] else [] }
+  (items.foldl (litStepF terms text (hashZeroLen items)) (st0, false)).1.result
 
 /-! ## numberHandler -/
 
@@ -321,8 +366,22 @@ def printBigNumber (c : Conf) (n : NumIn) (fracLen : Nat) : Str :=
   let result := if c.useCommaSep then printCommaSep result else result
   if c.percent > 0 then result ++ ['%'] else result
 
+/-- numberHandler for a section with a `/` (no exponent token): the integer part is
+`Floor(|number|)`, the fraction comes from the continued fraction of `|frac(number)|` -/
+def fractionNumber (items : List Tok) (usePositive : Bool) (n : NumIn) : Out :=
+  let c := getConf items
+  let (intLen, fracLen) := partLen c n.absShort
+  if n.isNum ∧ n.precision > bigPrecision ∧ intLen + fracLen > bigLen then
+    .ok (printNumberLiteralF n.cfPred items usePositive (printBigNumber c n fracLen))
+  else
+    let paddingLen := intLen + fracLen + (if fracLen > 0 then 1 else 0)
+    let r := padLeft paddingLen (n.fixedFloor c.percent fracLen)
+    let r := if c.useCommaSep then printCommaSep r else r
+    .ok (printNumberLiteralF n.cfPred items usePositive (r ++ percents c.percent))
+
 def numberHandler (items : List Tok) (value : Str) (usePositive : Bool) (n : NumIn) : Out :=
   if hasUnmodelled items then .unmodelled else
+  if (getConf items).useFraction then fractionNumber items usePositive n else
   let c := getConf items
   let (intLen, fracLen) := partLen c n.absShort
   if n.isNum ∧ n.precision > bigPrecision ∧ intLen + fracLen > bigLen ∧ !c.useSci then
